@@ -31,8 +31,51 @@ func isPadHelper(fn *ssa.Function) (sizeIdx, srcIdx int, ok bool) {
 	if !isP {
 		return
 	}
-	// dst' is a loop φ over append(φ, 0)
+	// dst' is a loop φ over append(φ, 0) — or, in the bulk form, φ(dst, append(dst, make([]byte, missing)...)) with
+	// missing = int(size) − len(src) appended only when it is positive
 	ph, isPhi := ap.Call.Args[0].(*ssa.Phi)
+	if isPhi && !isLoopHeader(ph.Block()) && len(ph.Edges) == 2 {
+		lcx := NewLinCtx(nil, fn)
+		for i, e := range ph.Edges {
+			bulk, isCall := e.(*ssa.Call)
+			other := ph.Edges[1-i]
+			dst, isDst := other.(*ssa.Parameter)
+			if !isCall || !isDst || !isBuiltin(&bulk.Call, "append") || bulk.Call.Args[0] != ssa.Value(dst) {
+				continue
+			}
+			ms, isMs := bulk.Call.Args[1].(*ssa.MakeSlice)
+			if !isMs || len(*ms.Referrers()) != 1 {
+				continue
+			}
+			// the edge that skips the bulk append is taken only when missing ≤ 0
+			pred := ph.Block().Preds[1-i]
+			conds := MustCondsAtBlock(fn, pred)
+			if cd, ok := edgeCond(pred, ph.Block()); ok {
+				conds = append(conds, cd)
+			}
+			if !lcx.Entails(lcx.FactsOf(conds), lcx.Lin(ms.Len)) {
+				continue
+			}
+			for j, pa := range fn.Params {
+				if _, isInt := intBasic(pa.Type()); !isInt {
+					continue
+				}
+				if linEq(lcx.Lin(ms.Len), lcx.Lin(pa).add(lcx.LenLin(src), -1)) {
+					return j, paramIndex(fn, src), true
+				}
+				for _, b := range fn.Blocks {
+					for _, in := range b.Instrs {
+						if cv, ok := in.(*ssa.Convert); ok && cv.X == ssa.Value(pa) {
+							if linEq(lcx.Lin(ms.Len), lcx.Lin(cv).add(lcx.LenLin(src), -1)) {
+								return j, paramIndex(fn, src), true
+							}
+						}
+					}
+				}
+			}
+		}
+		return
+	}
 	if !isPhi || !isLoopHeader(ph.Block()) {
 		return
 	}
@@ -196,6 +239,21 @@ func padObligations(p *Program, r *Report, rule string, fns []*ssa.Function) int
 					how = bad
 				}
 				r.Add(rule, FnName(fn), "minimal-length big-integer bytes are left-padded to 32 before use", c.Pos(), bad == "" && okUses > 0, how)
+			}
+		}
+	}
+	// (*big.Int).FillBytes into a 32-byte buffer is fixed-width by construction
+	for _, fn := range fns {
+		for _, b := range fn.Blocks {
+			for _, in := range b.Instrs {
+				c, ok := in.(*ssa.Call)
+				if !ok || !staticCalleeIs(&c.Call, "(*math/big.Int).FillBytes") {
+					continue
+				}
+				n++
+				lc := NewLinCtx(p, fn)
+				l := lc.LenLin(c.Call.Args[1])
+				r.Add(rule, FnName(fn), "big integer is written at fixed width", c.Pos(), l.isConst() && l.c == 32, "FillBytes into a buffer of length "+lc.Format(l))
 			}
 		}
 	}
